@@ -3,21 +3,80 @@ package main
 import (
 	"fmt"
 	"go/token"
+	"go/types"
 
 	"golang.org/x/tools/go/ssa"
 )
 
-// What http.go uses from net/http and net/url (C14, gating of the transfer):
-// r.URL.Query().Get(k) is an uninterpreted function of the URL object and the key; http.Error is a logged
-// call-out (kind "http.Error": writer, message, status code).
+// What http.go uses from net/http and net/url (C14: gating of the transfer, and which cache a request names).
+//
+// A query string is an abstract value: parseq(s) is the parsed form of the string s, qget(q, k) the first value of
+// key k (what Values.Get returns), qset / qadd the effect of Values.Set / Values.Add, qenc(q) the encoded string;
+// parsing an encoded query gives the same first values back. A url.Values object is a reference whose abstract
+// value lives in the ghost array G|q|state. URL.Query() parses the URL's RawQuery field; URL.String() is a string
+// whose query part (rawq) is that field; http.NewRequest parses its URL argument into a fresh URL object.
+// http.Error is a logged call-out (kind "http.Error": writer, message, status code).
+
+const qStateName = "G|q|state"
+
+func (st *State) fieldPtrOf(obj Val, elem types.Type, name string) *Ptr {
+	p := st.asPtr(obj)
+	stt, ok := st.e.P.canonT(elem).Underlying().(*types.Struct)
+	if !ok {
+		st.e.unsupportedf("field %s of non-struct %s", name, elem)
+	}
+	_, f := findField(stt, name)
+	if f == nil {
+		st.e.unsupportedf("no field %s in %s", name, elem)
+	}
+	return &Ptr{Kind: PObj, Root: p.Root, RootT: p.RootT, Path: p.Path + "." + f.Name(), T: f.Type()}
+}
+
+func pointee(t types.Type) types.Type {
+	if pt, ok := t.Underlying().(*types.Pointer); ok {
+		return pt.Elem()
+	}
+	return t
+}
 
 func init() {
+	assumed := func(st *State) {
+		st.e.assumeUsed("net/url, net/http (assumed): URL.Query() parses the RawQuery field; Values.Get returns the first value of a key; Set replaces and Add appends; parsing Values.Encode() gives the same values back; URL.String() carries RawQuery as its query part and http.NewRequest parses it into the request's URL")
+	}
 	models["(*net/url.URL).Query"] = func(st *State, fr *Frame, fn *ssa.Function, a []Val, pos token.Pos) (*Val, bool) {
-		st.e.assumeUsed("net/url (assumed): URL.Query().Get(k) is a function of the URL object and k")
-		return rv(Val{C: []string{fmt.Sprintf("(qvals %s)", a[0].C[0])}})
+		assumed(st)
+		raw := st.loadPtrQuiet(st.fieldPtrOf(a[0], pointee(fn.Signature.Recv().Type()), "RawQuery"))
+		m := st.newRef("values")
+		qs := st.arr(qStateName, "(Array Int Int)")
+		st.setArr(qStateName, "(Array Int Int)", store(qs, m, fmt.Sprintf("(parseq %s)", raw.C[0])))
+		return rv(Val{C: []string{m}})
 	}
 	models["(net/url.Values).Get"] = func(st *State, fr *Frame, fn *ssa.Function, a []Val, pos token.Pos) (*Val, bool) {
-		return rv(Val{C: []string{fmt.Sprintf("(qget %s %s)", a[0].C[0], a[1].C[0])}})
+		qs := st.arr(qStateName, "(Array Int Int)")
+		return rv(Val{C: []string{fmt.Sprintf("(qget %s %s)", sel(qs, a[0].C[0]), a[1].C[0])}})
+	}
+	upd := func(op string) modelFn {
+		return func(st *State, fr *Frame, fn *ssa.Function, a []Val, pos token.Pos) (*Val, bool) {
+			assumed(st)
+			st.oblige("safety", "map-nil", st.e.curProps, not(eq(a[0].C[0], "0")), pos)
+			qs := st.arr(qStateName, "(Array Int Int)")
+			st.setArr(qStateName, "(Array Int Int)", store(qs, a[0].C[0], fmt.Sprintf("(%s %s %s %s)", op, sel(qs, a[0].C[0]), a[1].C[0], a[2].C[0])))
+			return nil, true
+		}
+	}
+	models["(net/url.Values).Set"] = upd("qset")
+	models["(net/url.Values).Add"] = upd("qadd")
+	models["(net/url.Values).Encode"] = func(st *State, fr *Frame, fn *ssa.Function, a []Val, pos token.Pos) (*Val, bool) {
+		assumed(st)
+		qs := st.arr(qStateName, "(Array Int Int)")
+		return rv(Val{C: []string{fmt.Sprintf("(qenc %s)", sel(qs, a[0].C[0]))}})
+	}
+	models["(*net/url.URL).String"] = func(st *State, fr *Frame, fn *ssa.Function, a []Val, pos token.Pos) (*Val, bool) {
+		assumed(st)
+		raw := st.loadPtrQuiet(st.fieldPtrOf(a[0], pointee(fn.Signature.Recv().Type()), "RawQuery"))
+		s := st.fresh("urlstring", SInt)
+		st.assume(fmt.Sprintf("(= (rawq %s) %s)", s, raw.C[0]))
+		return rv(Val{C: []string{s}})
 	}
 	models["net/http.Error"] = func(st *State, fr *Frame, fn *ssa.Function, a []Val, pos token.Pos) (*Val, bool) {
 		fv := Val{T: fn.Signature, C: []string{st.e.funcID(fn)}}
@@ -25,11 +84,27 @@ func init() {
 		return nil, true
 	}
 	models["net/url.Parse"] = func(st *State, fr *Frame, fn *ssa.Function, a []Val, pos token.Pos) (*Val, bool) {
-		// (u, nil) with a fresh non-nil URL, or (nil, err)
+		// (u, nil) with a fresh non-nil URL whose RawQuery is the query part of the argument, or (nil, err)
+		assumed(st)
 		errT := fn.Signature.Results().At(1).Type()
 		err := st.freshVal("url.err", errT)
 		u := st.newRef("url")
+		ut := fn.Signature.Results().At(0).Type()
+		st.storePtr(st.fieldPtrOf(Val{T: ut, C: []string{u}}, pointee(ut), "RawQuery"), Val{T: types.Typ[types.String], C: []string{fmt.Sprintf("(rawq %s)", a[0].C[0])}}, pos)
 		return rv(Val{C: []string{ite(eq(err.C[0], "0"), u, "0"), err.C[0], err.C[1]}})
+	}
+	models["net/http.NewRequest"] = func(st *State, fr *Frame, fn *ssa.Function, a []Val, pos token.Pos) (*Val, bool) {
+		// (req, nil) with a fresh request whose URL is a fresh URL object parsed from the argument, or (nil, err)
+		assumed(st)
+		errT := fn.Signature.Results().At(1).Type()
+		err := st.freshVal("newrequest.err", errT)
+		rt := fn.Signature.Results().At(0).Type()
+		req := st.newRef("request")
+		urlField := st.fieldPtrOf(Val{T: rt, C: []string{req}}, pointee(rt), "URL")
+		u := st.newRef("url")
+		st.storePtr(st.fieldPtrOf(Val{T: urlField.T, C: []string{u}}, pointee(urlField.T), "RawQuery"), Val{T: types.Typ[types.String], C: []string{fmt.Sprintf("(rawq %s)", a[1].C[0])}}, pos)
+		st.storePtr(urlField, Val{T: urlField.T, C: []string{u}}, pos)
+		return rv(Val{C: []string{ite(eq(err.C[0], "0"), req, "0"), err.C[0], err.C[1]}})
 	}
 	specFuncs["fmtuint"] = func(sc *SpecCtx, x *SExpr) Val { // fmtuint(v, base): strconv.FormatUint(v, base)
 		v, b := sc.eval(x.Args[0]), sc.eval(x.Args[1])
@@ -37,6 +112,7 @@ func init() {
 	}
 	specFuncs["urlGet"] = func(sc *SpecCtx, x *SExpr) Val { // urlGet(u, k): u.Query().Get(k)
 		u, k := sc.eval(x.Args[0]), sc.eval(x.Args[1])
-		return mkStr(fmt.Sprintf("(qget (qvals %s) %s)", u.C[0], k.C[0]))
+		raw := sc.load(sc.st.fieldPtrOf(u, pointee(u.T), "RawQuery"))
+		return mkStr(fmt.Sprintf("(qget (parseq %s) %s)", raw.C[0], k.C[0]))
 	}
 }
